@@ -15,6 +15,8 @@ ZERO32 = bytes(32)
 # payload trees
 # ---------------------------------------------------------------------------------------------
 def tree_key(tree, f):
+    if f.get("ckey"):          # files that share a content stream (one is a prefix of the other)
+        return f["ckey"]
     return "/".join([tree["name"]] + list(f["path"]))
 
 
